@@ -447,13 +447,35 @@ func runURLCase(c uCase) uEvent {
 	return ev
 }
 
+// sameFilter compares the filter trees themselves (not their JSON text, which the library produces)
 func sameFilter(a, b *jsonapi.URL) bool {
 	if a.Params.FilterLabel != b.Params.FilterLabel {
 		return false
 	}
-	ja, _ := json.Marshal(a.Params.Filter)
-	jb, _ := json.Marshal(b.Params.Filter)
-	return string(ja) == string(jb)
+	return sameTree(a.Params.Filter, b.Params.Filter)
+}
+
+func sameTree(x, y *jsonapi.Filter) bool {
+	if x == nil || y == nil {
+		return x == nil && y == nil
+	}
+	if x.Field != y.Field || x.Op != y.Op || x.Col != y.Col {
+		return false
+	}
+	xs, xok := x.Val.([]*jsonapi.Filter)
+	ys, yok := y.Val.([]*jsonapi.Filter)
+	if xok || yok {
+		if !xok || !yok || len(xs) != len(ys) {
+			return false
+		}
+		for i := range xs {
+			if !sameTree(xs[i], ys[i]) {
+				return false
+			}
+		}
+		return true
+	}
+	return reflect.DeepEqual(x.Val, y.Val)
 }
 
 func sameFieldSets(a, b map[string][]string) bool {
@@ -523,7 +545,7 @@ func runChain(c uCase, raw string, schema *jsonapi.Schema, req uReq) uEvent {
 }
 
 var (
-	idVocab     = []string{"1", "1", "a b", "a&b", "a?b", "a#b", "50%", "a+b", "a=b", "é漢", "x\"y"}
+	idVocab     = []string{"1", "1", "a b", "a&b", "a?b", "a#b", "50%", "a+b", "a=b", "é漢", "x\"y", ".", "..", "a.b", "~x"}
 	labelVocab  = []string{"lbl", "lbl", "a b", "a&b=c", "50%", "a+b", "tag#1", "é"}
 	pageVocab   = []string{"2", "2", "10", "x y", "a&b", "1+1"}
 	filterVocab = []string{
@@ -533,6 +555,8 @@ var (
 		`{"o":"and","v":[{"f":"x","o":"=","v":"a"},{"o":"or","v":[{"f":"y","o":">","v":1},{"f":"x","o":"!=","v":null}]}]}`,
 		`{"o":"or","v":[]}`,
 		`{"f":"x","o":"=","v":true,"c":"coll"}`,
+		`{"o":"and","c":"things","v":[{"f":"x","o":"=","v":"a","c":"leaf"},{"o":"or","c":"inner","v":[{"f":"y","o":"<","v":2}]}]}`,
+		`{"f":"x","o":"in","v":["a","b c","d&e"]}`,
 	}
 )
 
